@@ -112,10 +112,10 @@ known("F9", SCP,
       "never explores the failing try_lock (src/rt/mutex.rs, src/rt/rwlock.rs)",
       ["missing_outcome", "false_deadlock"], "try_lock_contended",
       case("C07", "known", "t0: spawn(1); Lock(m=0); Incr(m=0); Unlock(m=0) || t1: TryLock(m=0); Unlock(m=0)"))
-known("F2", SCP,
+fixed("F2", ["C01", "C05", "C09"], "7760bb3",
       "try_recv on an empty channel is not a scheduling point and send/recv are not treated as dependent: `try_recv || send(1)` "
       "only ever returns Empty (src/sync/mpsc.rs try_recv, src/rt/mpsc.rs)",
-      ["missing_outcome", "missed_deadlock"], "try_recv_race",
+      ["missing_outcome", "missed_deadlock"],
       case("C09", "known", "t0: spawn(1); TryRecv; join(1) || t1: Send(v=1)"))
 known("F2b", SCP + ["C15"],
       "dropping the Receiver (emptiness test in Receiver::drop) is not a scheduling point: a send that can take effect after the "
